@@ -27,6 +27,10 @@ CHECKS = {
          "JellyProducer is the nondeterministic generator of exactly the row sequences the Tier-1 reader accepts (any slot/eviction choice, split, explicit-or-zero id, elision or not, early/redundant entries, repeated options, cuts, empty frames, "
          "ids at the top of 4096-entry tables, disabled tables, versions 1-2); TLC simulates it, each behaviour carries its denotation, /verif's codec writes the bytes, and the six parse entry points must return exactly that denotation. Sampled, not exhaustive.",
          "TLC simulation of spec/JellyProducer.tla (Tier-1 producer) replayed as bytes into the real parsers; denotation computed by TLC"),
+ "C15": ("model_checking", "6 C15",
+         "TLC-generated RDF 1.1 streams (reference encoder with arbitrary legal choices; PyWriter behaviours through the real serializers) go through all six parse entry points: flat = concat(grouped) = to_graph within an integration and rdflib = generic term for term, "
+         "with the TLC-computed denotation as arbiter; corresponding generic/rdflib statement iterators with equal options must serialize to identical bytes.",
+         "differential replay of TLC-generated behaviours (JellyProducer, PyWriter) through both integrations, arbitrated by the TLA+ denotation"),
  "C16": ("fault_enumeration", "6 C16",
          "One catalogued violation (12 classes) is injected by the producer model after FaultAt rows of an arbitrary legal stream; only rows the Tier-1 reader rejects at that very row qualify. Both integrations' flat parsers are drained item by item: "
          "an exception must be raised and everything yielded before must be the denotation of the earlier rows.",
@@ -70,7 +74,7 @@ m = {
    "enable": "no source hooks in /repo: recorders are installed from /verif by wrapping functions at run time; ./check sets JELLY_RDF_PYJELLY_VERIF=1 and PYTHONPATH=/repo so the working tree (not the compiled copy in /venv) is imported",
    "baseline_off_cmd": "cd /repo && /venv/bin/python -m pytest -ra -q -p no:cacheprovider --timeout=900 --continue-on-collection-errors; rc=$?; git -C /repo checkout -- tests/integration_tests/test_examples/temp; exit $rc",
    "source_commits": [],
-   "fix_commits": ["caaa11c", "ad129d3", "7027c39", "8dbb8a6", "b731d1a", "a25bb8c", "e37ed0f"],
+   "fix_commits": ["caaa11c", "ad129d3", "7027c39", "8dbb8a6", "b731d1a", "a25bb8c", "e37ed0f", "6cc2110"],
    "add_only": True,
  },
  "engines": [
